@@ -49,6 +49,22 @@ CLAIMS = {
   text="Ten Coq theorems: for every message and every split into update calls the modelled bundled SHA-1 / SHA-256 code returns the FIPS 180-4 digest (no length bound); the same for SHA-512 and SHA-512/128 below 2^61 bytes (bound forced by the 64-bit length counter); the digest is independent of the split; scraped constants equal the FIPS ones. SHA-1/256/512 are defined in Coq and checked against NIST vectors. OpenSSL and the C compression functions are compared, not proved: both builds and the extracted Coq functions run on every length 0..300 with several splits for the 4 types, on 200 long messages, on random blocks, and on file-level cross-build writes and reads.",
   note="trusted: Coq kernel, extraction, the hand transcription of sha2.c/sha1.c/libsha.c as far as the differential run checks it, equality of the C and FIPS compression functions (tested on random blocks), OpenSSL (tested), LP64; constants, widths and layout regenerated from the sources on every run (tools/gen_sha.py)",
   tech="executable FIPS spec in Coq; C-shaped model with explicit u32/u64 arithmetic; streaming = one-shot via a byte-wise absorb form; three-way differential run (Coq, OpenSSL build, bundled build); cross-build archive identity", ref="DESIGN.md 6 C18"),
+ "C10": dict(
+  text="Twelve Coq theorems about faithful models of range.c for all well-formed tables, all validity vectors and all limits: the request is ascending/non-overlapping/non-adjacent, covers exactly the bytes of a prefix of the missing chunks (all when unlimited, >= 1 when any is missing, <= max(limit,1) ranges), never header or non-missing bytes; range index = covered chunks with stored sizes, count = number of ranges; model = spec function; the rendered string is the comma-join for every list up to INT_MAX*2/3 characters through all buffer growths, empty list safe. Tie: differential execution on ~116k (quick) / ~504k (thorough) cases incl. exhaustive vectors <= 10/12 chunks x 8 limits x 8 families and buffer-edge tables/lists, plain and ASan.",
+  note="trusted: Coq kernel, extraction, the hand transcription as far as the correspondence run checks it, LP64, C99 snprintf contract, no allocation failure, < 2^32 chunks; Print Assumptions closed",
+  tech="Coq: invariant reduces the general insertion walk + merge pass to append-or-merge-with-last, induction over the chunk list; growth loop on fuel; extracted model vs range.c on in-memory indexes; independent Python and Coq-spec oracle", ref="DESIGN.md 6 C10"),
+ "C09": dict(
+  text="Exact-classification theorem for the faithful model of validate_checksums / zck_validate_data_checksum: for every header with prefix-sum offsets, every file and every prior state the result equals the specification (chunk i valid iff empty first entry, or extent inside the file and hash / zero-digest match; all-failed override; verdict 1 iff all chunks and the data digest match; detached header: dictionary only), the file is unchanged and the reader-relevant state is the state after open, for every sequence of validate-all / validate-data / find-valid calls. Any hash function. Tie: model vs library (flags, return values, position, hash-context states) on all damage patterns <= 5/8 chunks, every truncation length, call interleavings <= 3/4 incl. real read-to-end; oracle: hashlib recomputation.",
+  note="regular file without I/O faults (C12 covers those); comp_read's re-initialisation of the chunk hash context is read off the code and tested by real reads, not proved; a zero-length chunk is valid iff its digest is all zeros",
+  tech="Coq induction over the chunk list / call list (implementation model = executable specification) + extracted-model/library differential run + independent hashlib oracle", ref="DESIGN.md 6 C09"),
+ "C08": dict(
+  text="Soundness and frame theorems for the faithful model of zck_copy_chunks / write_and_verify_chunk / zero_chunk with the uthash lookup as 'first chunk with these digest bytes and length': newly valid implies extent inside the file and H(target type)(bytes) = target digest (also over any sequence of sources); newly failed implies zero-filled; valid chunks, header and all bytes outside fillable extents unchanged; source unchanged; a source chunk is used only if digest, stored size and size are equal; equal digest size implies equal hash type (generated constants); find_matching pairs only equal (uncompressed) digest + length. Any hash function, any crafted, corrupted or truncated source. Tie: flags, pairings and the whole target file after every call on 900 / 12 900 (source, target) pairs.",
+  note="source and target are different files, no I/O faults (C12); zck_find_matching_chunks sets valid=1 without data - only its pairing contract is claimed (it is not used by the download path)",
+  tech="Coq invariant proof over the copy loop with a block-wise stale-buffer model + extracted-model/library differential run + independent hashlib/frame oracle", ref="DESIGN.md 6 C08"),
+ "C01": dict(
+  text="Theorems for all contents, configurations and op sequences: the write path terminates; the chunk list at close concatenates to exactly the bytes written; segmentation into write calls is irrelevant; the file the writer emits (chunker -> header creation model, both faithful to the C) opens in the reader model with the expected header, passes header/chunk/data checksum verification of the specification and the specification decoder returns exactly the written bytes (zstd through its round-trip contract only); the zck tool's scanner never crashes, hands exactly the input to the library for every split string and every partition into read() results, cuts chunks in front of split strings and reports read errors. Tie/oracle: real writer+reader round trips under random legal configurations (incl. descriptor 0 free) x 12 content classes x segmentations x read-size sequences under ASan; header bytes model vs library; real zck binary through a FIFO with controlled read sizes vs the scanner model; unzck read-back.",
+  note="the reader's data-path completeness (a valid file is read to the end under every buffer-size sequence) is covered by the differential run and by C02's soundness theorems, not by a completeness theorem; an index larger than 2^31-1 bytes is written but refused by the reader (recorded finding, needs ~16.5 M chunks)",
+  tech="Coq: loop-to-fold chunker lemmas, encode/decode proof of the whole header, scanner invariant; real library and tool round trips incl. FIFO-controlled read partitions", ref="DESIGN.md 6 C01/C16"),
 }
 
 PENDING_REASON = "not built yet in this revision of /verif (work in progress, DESIGN.md section 10): will be claimed once its model, theorems and correspondence run exist"
